@@ -158,6 +158,19 @@ check("C10",
       "TLA+ BFS and Kruskal machines (C10_MC) model-checked over all 4-node graphs; TLC trace validation against Graph/MeshCore/TetCore (C10_Trace)",
       "DESIGN.md 6.10")
 
+check("C11",
+      "TLC checks the k-d tree build machine for EVERY point sequence of {0,2,4}^d (4-5 points in 1-D, 3-4 in 2-D) and every admissible "
+      "pivot choice: termination (liveness under weak fairness and the split-count variant), leaves partition the points and respect "
+      "their boxes; and the k-nearest search transcribed as a function, for every tree, every query of {-1,1,3,5}^d and every k <= n+1: "
+      "exactly min(k, n) nearest. Both as-built rules (split '<= pivot', prune before k candidates) yield counterexamples. Every emitted "
+      "build behaviour is replayed into the real KDTree with its pivots injected through a harness-side wrapper of _find_pivot (which "
+      "also enforces the split bound, so non-termination is observed deterministically); random clustered / collinear / duplicated / "
+      "constant-axis point sets up to 60 points in dimension 1-4 run with the three real strategies; TLC judges leaf partition, split "
+      "consistency, k-nearest (distinct, ordered, k smallest) and radius answers.",
+      "Integer points with even coordinates; radii never on a point; any k nearest with the right distances accepted.",
+      "TLA+ build machine with liveness (C11_MC) and search function (C11_KNN_MC) model-checked; pivot-injected replay; TLC trace validation (C11_Trace)",
+      "DESIGN.md 6.11")
+
 ALL = ["C%02d" % i for i in range(1, 21)]
 
 
